@@ -468,9 +468,36 @@ def m_sum(I, args, kw):
     return acc
 
 
-@model(builtins.min, builtins.max)
-def m_minmax(I, args, kw):
-    raise Unsupported('min/max')
+def _minmax(I, args, kw, is_min):
+    if set(kw) - {'default'}:
+        raise Unsupported('min/max with key')
+    seq = list(I.iterate(args[0])) if len(args) == 1 else list(args)
+    if not seq:
+        if 'default' in kw:
+            return kw['default']
+        I.raise_(ValueError, 'min()/max() arg is an empty sequence')
+    best = seq[0]
+    for x in seq[1:]:
+        c = I.compare(ast.Lt() if is_min else ast.Gt(), x, best)
+        if isinstance(c, Sym):
+            try:
+                best = ite_value(c.t, x, best)
+                continue
+            except Unsupported:
+                c = I.ctx.branch(c)
+        if c:
+            best = x
+    return best
+
+
+@model(builtins.min)
+def m_min(I, args, kw):
+    return _minmax(I, args, kw, True)
+
+
+@model(builtins.max)
+def m_max(I, args, kw):
+    return _minmax(I, args, kw, False)
 
 
 @model(builtins.abs)
@@ -1781,7 +1808,39 @@ def m_uuid4(I, args, kw):
 
 # =========================================================================================== with
 def with_stmt(I, s, frame):
-    raise Unsupported('with statement')
+    """`with ctx() as name:` for modelled context managers (objects with pyvc_method / unknown values) and for user classes
+    defining __enter__/__exit__ (python semantics: __exit__ runs on every exit; a truthy result swallows the exception)"""
+    interp = _interp_mod()
+    if len(s.items) != 1:
+        raise Unsupported('with statement with several items')
+    item = s.items[0]
+    mgr = I.eval(item.context_expr, frame)
+
+    def call_m(name, args):
+        if isinstance(mgr, AnyVal):
+            return I.any_op(f'{mgr.label}.{name}()')
+        if hasattr(mgr, 'pyvc_method'):
+            return mgr.pyvc_method(I, name, args, {})
+        if isinstance(mgr, PObj):
+            m = I.find_method(mgr.cls, name)
+            if m is None:
+                I.raise_(AttributeError, name)
+            return I.call(m, [mgr] + args, {})
+        raise Unsupported(f'context manager {type(mgr).__name__}')
+    val = call_m('__enter__', [])
+    if item.optional_vars is not None:
+        I.assign(item.optional_vars, val, frame)
+    try:
+        I.exec_block(s.body, frame)
+    except interp.PyRaise as pr:
+        swallow = call_m('__exit__', [pr.exc.cls, pr.exc, None])
+        if isinstance(swallow, AnyVal) or not I.ctx.branch(I.truthy(swallow)):
+            raise
+        return
+    except (interp.ReturnSig, interp.BreakSig, interp.ContinueSig):
+        call_m('__exit__', [None, None, None])
+        raise
+    call_m('__exit__', [None, None, None])
 
 
 # =========================================================================================== logging
